@@ -348,6 +348,7 @@ func runTeardownSuite(rep *Report, tier string, seed int64, prop string) {
 	if prop == "C14" {
 		c14EnumDuringTeardown(rep)
 		c14HookCombos(rep)
+		c14InheritedIDLink(rep)
 	}
 	if prop == "C15" {
 		for _, api := range apis() {
